@@ -166,6 +166,11 @@ proof fn lemma_nested_div(n: int)
     vstd::arithmetic::div_mod::lemma_div_denominator(n, 614125, 85);
 }
 
+// implication-style wrapper (no `requires`): usable in a proof block that does not know which branch the code took
+proof fn lemma_a85_group_unique_if(c: Seq<u8>, e: Seq<u8>)
+    ensures a85_group_rel(c, e) ==> e =~= a85_group(c)
+{ if a85_group_rel(c, e) { lemma_a85_group_unique(c, e); } }
+
 // one full group peeled off the front of the spec encoder
 proof fn lemma_enc85_step(d: Seq<u8>, i: int, b0: Seq<u8>, g: Seq<u8>, b1: Seq<u8>)
     requires 0 <= i, 4 * i + 4 <= d.len(),
